@@ -85,9 +85,84 @@ def entries(ctx):
     return out
 
 
+def checked_setters(ctx):
+    """C15.S4 - a field that has a CHECKED setter (one argument, refuses it by comparing it with the field, else stores it: Position._check_set_dt) is stored into by no other
+    method of the class unless the same value went through the checked setter first on that path.  One path checks, another does not: the refusal can be walked around."""
+    import ast
+    M = ctx.M
+    n_set = n_w = 0
+    for c in M.classes.values() if hasattr(M, 'classes') and isinstance(M.classes, dict) else []:
+        if not c.path.startswith('qstrader/broker/'):
+            continue
+        setters = {}
+        for name, m in c.methods.items():
+            a = [x.arg for x in m.node.args.args]
+            if len(a) != 2 or a[0] != 'self' or name == '__init__':
+                continue
+            prm = a[1]
+            stores = [k for k in ast.walk(m.node) if isinstance(k, ast.Assign) and isinstance(k.value, ast.Name) and k.value.id == prm and len(k.targets) == 1 and
+                      isinstance(k.targets[0], ast.Attribute) and isinstance(k.targets[0].value, ast.Name) and k.targets[0].value.id == 'self']
+            if len(stores) != 1:
+                continue
+            fld = stores[0].targets[0].attr
+            refuses = any(isinstance(i_, ast.If) and any(isinstance(r_, ast.Raise) for b_ in i_.body for r_ in ast.walk(b_)) and
+                          any(isinstance(x_, ast.Name) and x_.id == prm for x_ in ast.walk(i_.test)) and
+                          any(isinstance(x_, ast.Attribute) and x_.attr == fld and isinstance(x_.value, ast.Name) and x_.value.id == 'self' for x_ in ast.walk(i_.test))
+                          for i_ in ast.walk(m.node))
+            if refuses:
+                setters[fld] = (name, m)
+        for fld, (sname, sm) in sorted(setters.items()):
+            n_set += 1
+
+            def reaches(meth, depth=2):
+                # positions of meth's parameters that are handed to the checked setter (directly or through another method of the object)
+                out = set()
+                ps_ = [x.arg for x in meth.node.args.args][1:]
+                for k in ast.walk(meth.node):
+                    if isinstance(k, ast.Call) and isinstance(k.func, ast.Attribute) and isinstance(k.func.value, ast.Name) and k.func.value.id == 'self':
+                        tgt = c.lookup(k.func.attr) if hasattr(c, 'lookup') else c.methods.get(k.func.attr)
+                        if k.func.attr == sname:
+                            idx = {0}
+                        elif tgt is not None and depth > 0 and tgt is not meth and not getattr(tgt, 'is_property', False):
+                            idx = reaches(tgt, depth - 1)
+                        else:
+                            idx = set()
+                        for i_ in idx:
+                            if i_ < len(k.args) and isinstance(k.args[i_], ast.Name) and k.args[i_].id in ps_:
+                                out.add(ps_.index(k.args[i_].id))
+                return out
+            for name, m in sorted(c.methods.items()):
+                if name in ('__init__', sname) or M.ctor_only(m):
+                    continue
+                for k in ast.walk(m.node):
+                    if not (isinstance(k, ast.Assign) and any(isinstance(t_, ast.Attribute) and t_.attr == fld and isinstance(t_.value, ast.Name) and t_.value.id == 'self' for t_ in k.targets)):
+                        continue
+                    n_w += 1
+                    val = ast.unparse(k.value)
+                    went = False
+                    for q in ast.walk(m.node):
+                        if isinstance(q, ast.Call) and isinstance(q.func, ast.Attribute) and isinstance(q.func.value, ast.Name) and q.func.value.id == 'self' and q.lineno < k.lineno:
+                            tgt = c.lookup(q.func.attr) if hasattr(c, 'lookup') else c.methods.get(q.func.attr)
+                            idx = {0} if q.func.attr == sname else (reaches(tgt) if tgt is not None and not getattr(tgt, 'is_property', False) else set())
+                            if any(i_ < len(q.args) and ast.unparse(q.args[i_]) == val for i_ in idx):
+                                went = True
+                    inst = '%s.%s is stored only through its checked setter %s, or after the same value went through it (%s)' % (c.name, fld, sname, m.qn)
+                    if went:
+                        ctx.holds('C15.S4', inst, m.site(k))
+                    else:
+                        ctx.violation('C15.S4', inst, m.site(k), 'READ!: %s stores `%s` into self.%s directly, while %s.%s refuses a value that fails its comparison with self.%s: on this path '
+                                      'the value that would have been refused is accepted, and what follows (fills, marks) is applied' % (m.qn, val[:40], fld, c.name, sname, fld),
+                                      key='C15.S4|bypass|%s|%s' % (m.qn, fld))
+    if n_set == 0:
+        ctx.undecided('C15.S4', 'fields with a checked setter are stored only through it', None, 'no checked setter of the recognised form (one argument, refused by a comparison with the field, else stored) found under qstrader/broker/')
+    else:
+        ctx.holds('C15.S4', 'checked setters found under qstrader/broker/: %d; other stores into their fields examined: %d' % (n_set, n_w), None)
+
+
 def check(ctx):
     from ..lib import discarded_results
     ctx.sub(discarded_results, 'C15.S3', ('qstrader/broker/',), 'refusals and updates act on the objects the code actually changed')
+    ctx.sub(checked_setters)
     es = entries(ctx)
     ctx.floor('C15.S1', 'public entry points of SimulatedBroker and Portfolio', len(es), 20)
     total_raise = 0
